@@ -315,6 +315,11 @@ def run_faulty(ctx, run, name, case):
             V(run, "dup-ends-invalid", "ThreadSanitizer: readers of a freshly duplicated topology race in the %s cache refresh" % c,
               replay + "\ntsan:\n" + err_t.decode(errors="replace")[:6000])
             continue
+        if c.startswith("linuxstatic:"):
+            V(run, "always-writes-static:" + c.split(":", 1)[1],
+              "ThreadSanitizer: concurrent native discoveries of independent topologies race on a function-local static of the Linux backend (%s)" % c.split(":", 1)[1],
+              replay + "\ntsan:\n" + err_t.decode(errors="replace")[:6000])
+            continue
         if c.startswith("static:"):
             # a first use that the sequential preamble did not warm (e.g. libxml2's lazily created catalog mutex on the
             # first load of a missing file): the known first-use class, not an interference between the histories
@@ -344,6 +349,8 @@ def parse_tsan(err):
             if fn in STATIC_FUNCS:
                 cat = "static:" + fn
                 break
+        if cat is None and frames and "/hwloc/topology-linux.c" in frames[0][1]:
+            cat = "linuxstatic:" + frames[0][0]      # process-wide caches of the native Linux backend
         if cat is None:
             for fn, where in allframes[:12]:
                 if "/hwloc/distances.c" in where:
@@ -646,6 +653,8 @@ def check(run, replay=None):
         cases.append(("indep-errors-lockstep-%d" % r, G.indep_errors(rng_f, C.REPO, docs, 2, lockstep=True)))
         cases.append(("indep-dups-%d" % r, G.indep_dups(rng_f, C.REPO, docs, lockstep=False)))
         cases.append(("indep-dups-lockstep-%d" % r, G.indep_dups(rng_f, C.REPO, docs, lockstep=True)))
+        cases.append(("indep-native-bound-%d" % r, G.indep_native(rng_f, rng_f.choice([2, 4]) if run.tier == "quick" else rng_f.choice([2, 4, 8, 16]), True)))
+        cases.append(("indep-native-free-%d" % r, G.indep_native(rng_f, rng_f.choice([2, 4]), False)))
     for name, case in cases:
         if "# kind: indep-faulty" in case:
             if not docs:
